@@ -223,7 +223,18 @@ def yields_bool(t):
     if k == 'bin':
         return t[1] in ('==', '!=', '<=', '>=', '<', '>') or (t[1] in ('&&', '||') and (yields_bool(t[2]) or yields_bool(t[3])))
     return False
+class _FiniteOps:
+    """the reference ops with one difference: a non-finite concrete power (0**-x: Python raises, NumPy gives inf) ends the
+    evaluation as 'no claim' instead of flowing on as nan -- 1<0**log(.5) is True in NumPy (1<inf) and would be False on nan"""
+    def __init__(self, O): self._O = O
+    def __getattr__(self, n): return getattr(self._O, n)
+    def pow(self, b, e):
+        r = self._O.pow(b, e)
+        if isinstance(r, float) and (r != r or r in (float('inf'), float('-inf'))):
+            raise ZeroDivisionError('non-finite power')
+        return r
 def evalchar(O, t):
+    O = _FiniteOps(O)
     def conv(t):
         k = t[0]
         if k == 'val': return ('lit', number(O, t[1]))
